@@ -297,6 +297,11 @@ def _check_tasks(case, task_results, out):
             or ('DONE' in expc and gotc[0][0] != 'DONE')):
         out.failures.append(Failure('tasks_counts', 'C18/tasks_counts',
                                     f'classification_counts {gotc} expected {expc}'))
+    # the verdict of a summary does not depend on what was read from it before
+    if ntasks and bool(fresh) != exp:
+        out.failures.append(Failure('tasks_verdict', f'C18/tasks_verdict/after-counts/expected={exp}',
+                                    f'bool {bool(fresh)} after classification_counts for statuses '
+                                    f'{sorted(ref)}'))
 
 
 def _check_tests(case, task_results, out):
@@ -333,6 +338,10 @@ def _check_tests(case, task_results, out):
             or ('SUCCESS' in expc and gotc[0][0] != 'SUCCESS')):
         out.failures.append(Failure('tests_counts', 'C18/tests_counts',
                                     f'classification_counts {gotc} expected {expc}'))
+    if ref and bool(fresh) != (set(ref) == {'SUCCESS'}):
+        out.failures.append(Failure('tests_verdict', 'C18/tests_verdict/after-counts',
+                                    f'bool {bool(fresh)} after classification_counts for outcomes '
+                                    f'{ {k: len(v) for k, v in ref.items()} }'))
 
 
 def _check_bylabels(case, task_results, out):
